@@ -3,16 +3,20 @@ package race
 import (
 	"fmt"
 	"math/rand"
+	"net/http/httptest"
 	"os"
 	"strings"
 	"sync"
 	"testing"
 	"time"
 
+	"github.com/f1bonacc1/process-compose/src/api"
 	"github.com/f1bonacc1/process-compose/src/app"
 	"github.com/f1bonacc1/process-compose/src/command"
 	"github.com/f1bonacc1/process-compose/src/pclog"
 	"github.com/f1bonacc1/process-compose/src/types"
+	"github.com/gin-gonic/gin"
+	"github.com/gorilla/websocket"
 	"github.com/rs/zerolog"
 	"github.com/rs/zerolog/log"
 	"pgregory.net/rapid"
@@ -124,8 +128,34 @@ func checkConc(c ConcCase) pbt.Verdict {
 	}()
 
 	obs := pclog.NewConnector(func([]string) {}, func(string) (int, error) { return 0, nil }, 5)
+	// the REST / websocket front end on top of the same runner, started on first use
+	var srvOnce sync.Once
+	var srv *httptest.Server
+	defer func() {
+		if srv != nil {
+			srv.Close()
+		}
+	}()
 	doOp := func(op COp) {
 		switch op.Kind {
+		case "wslogs":
+			// one websocket connection following the logs of two processes, as `process logs a,b -f` does
+			srvOnce.Do(func() {
+				gin.SetMode(gin.ReleaseMode)
+				srv = httptest.NewServer(api.InitRoutes(false, api.NewPcApi(r)))
+			})
+			u := "ws" + strings.TrimPrefix(srv.URL, "http") + "/process/logs/ws?name=" + op.Name + ",b&offset=3&follow=true"
+			ws, _, err := websocket.DefaultDialer.Dial(u, nil)
+			if err != nil {
+				return
+			}
+			_ = ws.SetReadDeadline(time.Now().Add(60 * time.Millisecond))
+			for i := 0; i < 12; i++ {
+				if _, _, err := ws.ReadMessage(); err != nil {
+					break
+				}
+			}
+			_ = ws.Close()
 		case "states":
 			_, _ = r.GetProcessesState()
 		case "state":
@@ -286,7 +316,7 @@ func firstLines(s string, n int) string {
 
 // vocabulary of operations; `all` adds the ones that change the process set.
 func vocabulary(all bool) []string {
-	base := []string{"states", "state", "info", "log", "subscribe", "projstate", "names", "start", "stop", "restart"}
+	base := []string{"states", "state", "info", "log", "subscribe", "projstate", "names", "start", "stop", "restart", "wslogs"}
 	if all {
 		base = append(base, "scale", "scale", "update")
 	}
